@@ -274,6 +274,22 @@ def it_zip(ctx, args, ci, dt):
     return IterV([tup(a.items[i], b.items[i]) for i in range(n)], 'zip')
 
 
+def it_minmax(which):
+    def f(ctx, args, ci, dt):
+        it = args[0]
+        items = list(it.items)
+        if not items:
+            return none()
+        best = items[0]
+        for x in items[1:]:
+            a, b = deref(best), deref(x)
+            lt = ctx.binop(None, 'Lt', b, a) if which == 'min' else ctx.binop(None, 'Ge', b, a)
+            if ctx.branch(lt):
+                best = x
+        return some(best)
+    return f
+
+
 def it_collect(ctx, args, ci, dt):
     it = args[0]
     g = ci.generics
@@ -1629,6 +1645,8 @@ def install(ctx):
         M['<%s as Iterator>::collect' % k] = it_collect
         M['<%s as Iterator>::count' % k] = it_count
         M['<%s as Iterator>::zip' % k] = it_zip
+        M['<%s as Iterator>::min' % k] = it_minmax('min')
+        M['<%s as Iterator>::max' % k] = it_minmax('max')
         M['<%s as Iterator>::peekable' % k] = it_peekable
         M['<%s as Iterator>::take' % k] = it_take
         M['<%s as DoubleEndedIterator>::next_back' % k] = it_next_back
